@@ -53,8 +53,34 @@ pub fn case(input: &[Term]) -> Vec<(String, String)> {
             }
         }
     }
+    // exhausted means exhausted: polled again after the first None, the iterator must not start over (otherwise a
+    // consumer that polls once more gets completions a second time - "each once" would not hold)
+    match guard(|| {
+        let mut it = TwoValuedInterpretationsIterator::new(input);
+        let mut n = 0usize;
+        while it.next().is_some() && n < limit {
+            n += 1;
+        }
+        (it.next().is_some(), it.next().is_some())
+    }) {
+        Ok((false, false)) => {}
+        Ok(_) => out.push(("two-valued:restarts-after-end".into(), "after the first None the iterator yields items again".into())),
+        Err(m) => out.push(("two-valued:panic".into(), m)),
+    }
     // ---- three-valued
     let limit = 3usize.pow(k) * 2 + 8;
+    match guard(|| {
+        let mut it = ThreeValuedInterpretationsIterator::new(input);
+        let mut n = 0usize;
+        while it.next().is_some() && n < limit {
+            n += 1;
+        }
+        (it.next().is_some(), it.next().is_some())
+    }) {
+        Ok((false, false)) => {}
+        Ok(_) => out.push(("three-valued:restarts-after-end".into(), "after the first None the iterator yields items again".into())),
+        Err(m) => out.push(("three-valued:panic".into(), m)),
+    }
     match guard(|| ThreeValuedInterpretationsIterator::new(input).take(limit).collect::<Vec<_>>()) {
         Err(m) => out.push(("three-valued:panic".into(), m)),
         Ok(items) => {
@@ -93,7 +119,7 @@ pub fn case(input: &[Term]) -> Vec<(String, String)> {
 
 pub fn run_c20(run: &Run) {
     run.set_rule("every vector over {false, true, Term(2), Term(12)} of every length 0..L (L = 7 quick, 9 thorough); both public iterators are collected and compared as multisets with the 2^k completions / 3^k refinements computed independently. Non-trivial: vectors with >= 1 undecided and >= 1 decided position.");
-    run.assume("lengths above the bound are not explored; behaviour after the first None is not asserted (the property does not state it)");
+    run.assume("lengths above the bound are not explored; after the first None the iterators are polled twice more and must stay exhausted (each completion exactly once also for a consumer that polls again)");
     let maxlen = if run.quick() { 7 } else { 9 };
     for len in 0..=maxlen {
         let total = 4u64.pow(len as u32);
